@@ -355,7 +355,7 @@ Theorem send_end_to_end t telegram items later answer l_end :
                             f_segmented := false; f_final := true; f_ssn := server_ssn l; f_rsn := server_rsn l |} = Ok fb
     /\ t_send t telegram = (Ok answer, upd t {| c_link := l_end; c_buf := []; c_pos := 1 |} [] s')
     /\ written s' = written (t_ser t) ++ fb :: rr_list t (after_request l) items
-    /\ readable s' = [] /\ pending s' = later.
+    /\ readable s' = [] /\ pending s' = later /\ pos_sched s'.
 Proof.
   intros Hout Hbuf Hpos Hidle Hrd Hpd Hs Hlen Hmax Hch Hans Hseg Hcat l.
   destruct items as [|it r]; [contradiction|].
